@@ -41,13 +41,17 @@ Theorem invalid_names_refused : forall wk srv name,
   parse_and_validate name = None -> resolve wk srv name = Refused.
 Proof. intros wk srv name H. unfold resolve, resolve_step. rewrite H. reflexivity. Qed.
 
-(* ... also when the invalid name is the one a well-known reply delegates to *)
-Theorem invalid_delegate_refused : forall wk srv name d,
-  srv_sane srv -> wants_well_known name -> wk name = Some d -> parse_and_validate d = None ->
-  resolve wk srv name = Refused.
+(* a well-known reply that delegates to something that is not a server name is an invalid
+   reply: resolution goes on as if there had been none (SRV, then 8448, for the name asked for);
+   no connection target is ever derived from the invalid name *)
+Theorem invalid_delegate_falls_through : forall wk srv name d,
+  srv_sane srv -> wk name = Some d -> parse_and_validate d = None ->
+  resolve wk srv name = resolve (fun _ => None) srv name.
 Proof.
-  intros wk srv name d Hs Hw Hwk Hd. symmetry. apply resolve_unique; [exact Hs|].
-  eapply R_delegated; eauto. apply D_invalid. exact Hd.
+  intros wk srv name d Hs Hwk Hd.
+  destruct (wants_wk_dec name) as [(h & Ev & Ei)|Hn].
+  - rewrite !(resolve_wk _ _ _ _ Ev Ei), Hwk, Hd. reflexivity.
+  - rewrite !(resolve_no_wk _ _ _ Hn). reflexivity.
 Qed.
 
 (* the delegated name is resolved without a further well-known lookup: over the whole
@@ -70,6 +74,18 @@ Proof. exact no_lookup_unless_plain. Qed.
 (* every connection attempt of a round trip - first pass and the retry pass after all targets
    failed - goes to a target that the specification prescribes for the server name the round
    trip was made for, hence with that target's Host header and TLS server name *)
+(* every TCP connection behind the attempts of a round trip, and the connection of the
+   .well-known request of its resolution, is to an address the allow / deny lists permit *)
+Theorem round_trip_connections_policed : forall wks dead allow deny ip_of name resolved cache k r c,
+  round_trip wks (blocked_by dead allow deny ip_of) name resolved cache k = Some r ->
+  In c (attempt_connections ip_of (rt_attempts r)) ->
+  may_connect allow deny (net_of c) c.
+Proof. exact attempt_connections_allowed. Qed.
+
+Theorem well_known_connection_policed : forall allow deny ip_of name c,
+  well_known_connection allow deny ip_of name = Some c -> may_connect allow deny (net_of c) c.
+Proof. exact well_known_connection_allowed. Qed.
+
 Theorem round_trip_attempts_follow_spec : forall wk srv dead name k r t o l,
   srv_sane srv ->
   round_trip true dead name (resolve wk srv name) None k = Some r ->
@@ -106,15 +122,19 @@ Theorem well_known_oracle_is_spec : forall now r a e,
 Proof. exact honouredb_iff. Qed.
 
 Theorem cache_lifetime_prefers_max_age : forall now ex ex' cc age,
-  cache_control_max_age cc = Some age ->
-  header_expiry now ex cc = wrap64 (age + now) /\
+  cache_control_max_age (join_lines cc) = Some age ->
+  header_expiry now ex cc = sat_add age now /\
   header_expiry now ex cc = header_expiry now ex' cc.
 Proof. exact max_age_preferred. Qed.
 
 Theorem cache_lifetime_expires_otherwise : forall now ex cc,
-  cache_control_max_age cc = None ->
+  cache_control_max_age (join_lines cc) = None ->
   header_expiry now ex cc = match ex with Some e => e | None => 0%Z end.
 Proof. exact expires_used_otherwise. Qed.
+
+(* the repaired sum never wraps: it is the exact sum capped at the largest int64 *)
+Theorem cache_lifetime_saturates : forall age now, sat_add age now = Z.min (age + now) max_i64.
+Proof. exact sat_add_spec. Qed.
 
 Theorem max_age_directive_is_last_valid : forall cc ds x,
   cc <> [] -> split_all 44 cc [] = ds ++ [x] ->
@@ -202,7 +222,8 @@ Example resolve_shapes :
     Targets [ {| t_dest := bs "example.com:443"; t_host := bs "example.com:443"; t_sni := bs "example.com" |} ]
   /\ resolve (fun _ => None) ex_srv (bs "example.com") =
     Targets [ {| t_dest := bs "example.com:8448"; t_host := bs "example.com"; t_sni := bs "example.com" |} ]
-  /\ resolve (fun _ => Some (bs "bad name")) ex_srv (bs "example.com") = Refused
+  /\ resolve (fun _ => Some (bs "bad name")) ex_srv (bs "example.com") =
+    Targets [ {| t_dest := bs "example.com:8448"; t_host := bs "example.com"; t_sni := bs "example.com" |} ]
   /\ resolve (fun _ => None) ex_srv (bs "exa_mple.com") = Refused.
 Proof. repeat split; vm_compute; reflexivity. Qed.
 
@@ -225,10 +246,12 @@ Print Assumptions C16_constants_match_source.
 Print Assumptions resolve_follows_spec_order.
 Print Assumptions resolve_table_function.
 Print Assumptions invalid_names_refused.
-Print Assumptions invalid_delegate_refused.
+Print Assumptions invalid_delegate_falls_through.
 Print Assumptions at_most_one_well_known_lookup.
 Print Assumptions matrix_fed_before_matrix.
 Print Assumptions literals_and_ports_look_nothing_up.
+Print Assumptions round_trip_connections_policed.
+Print Assumptions well_known_connection_policed.
 Print Assumptions round_trip_attempts_follow_spec.
 Print Assumptions round_trip_attempts_usable.
 Print Assumptions round_trip_cache_holds_resolution.
@@ -237,6 +260,7 @@ Print Assumptions well_known_accept_iff.
 Print Assumptions well_known_oracle_is_spec.
 Print Assumptions cache_lifetime_prefers_max_age.
 Print Assumptions cache_lifetime_expires_otherwise.
+Print Assumptions cache_lifetime_saturates.
 Print Assumptions max_age_directive_is_last_valid.
 Print Assumptions oversized_reply_refused.
 Print Assumptions unrepaired_well_known_departed.
